@@ -560,6 +560,12 @@ Proof.
   eexists. repeat split; try discriminate.
 Qed.
 
+(* a GetMap whose result is merged from several images (the merger's cacheable is a bool): no validators are sent
+   and the answer is never conditional - tiled or not *)
+Lemma serve_wms_merged : forall h tps max_age tiled body inm ims,
+  serve_wms h tps max_age tiled (WBool true) body inm ims = Resp (new_resp body).
+Proof. intros. reflexivity. Qed.
+
 (* ---- ETag source ambiguity (str(timestamp) ++ str(size) is not injective) ------------------------------- *)
 Lemma etag_source_ambiguous :
   exists e1 e2, (st_ticks (e_ts e1) <> st_ticks (e_ts e2)) /\ e_size e1 <> e_size e2 /\ e_body e1 <> e_body e2 /\
